@@ -112,6 +112,37 @@ R_UNDEF = {"bad": None, "raw": None, "product": 0, "dets": [["sel", [["f", "num"
 R_C = {"bad": None, "raw": None, "product": 1, "dets": [["sel", [["fieldC", "num", "1"], ["fieldA", "str", "a"]]]], "conds": ["sel"]}
 FIXED_RULES = [R_WIN, R_LIN, R_PH, R_NEG, R_UNDEF, R_C]
 
+FILTERS = [
+    {"product": 1, "dets": [["sel", [["g", "num", "1"]]]], "cond": "not sel"},
+    {"product": 1, "dets": [["sel", [["h", "str", "a"]]], ["x2", [["f", "star", "b"]]]], "cond": "not (sel or x2)"},
+    {"product": 2, "dets": [["sel", [["f", "num", "2"], ["g", "str", "b"]]]], "cond": "not sel"},
+]
+KEYWORDS = {"not", "and", "or", "all", "any", "of", "1"}
+def apply_filter_py(r, f, n):
+    """what SigmaFilter.apply_on_rule produces (C11's subject; here only the input of the model): detections under
+    a per-application prefix, every condition extended by the prefixed filter condition"""
+    import re
+    if r["bad"] or r["product"] != f["product"]:
+        return r
+    pfx = f"_filt_n{n}"
+    fc = re.sub(r"[a-zA-Z*][a-zA-Z0-9*_-]*", lambda m: m.group(0) if m.group(0).lower() in KEYWORDS else pfx + "_" + m.group(0), f["cond"])
+    return dict(r, dets=r["dets"] + [[pfx + "_" + name, items] for name, items in f["dets"]],
+                conds=[f"({c}) and ({fc})" for c in r["conds"]])
+
+def model_ops(ops):
+    """operations as the model sees them: filters already applied (fresh prefix number per application)"""
+    out, n = [], 0
+    for op in ops:
+        if op[0] == "collf":
+            rs = []
+            for r in op[2]:
+                n += 1
+                rs.append(apply_filter_py(r, op[3], n))
+            out.append(["coll", op[1], rs, op[4]])
+        else:
+            out.append(op)
+    return out
+
 def mk_case(users, ops):
     return {"classes": CLASSES, "pdefs": PDEFS, "users": users, "ops": ops}
 
@@ -119,11 +150,11 @@ def valid(ops):
     nb = 0
     for op in ops:
         if op[0] == "new": nb += 1
-        elif op[0] in ("init", "rule", "coll") and op[1] >= nb: return False
-    return nb > 0 and ops[-1][0] in ("rule", "coll")
+        elif op[0] in ("init", "rule", "coll", "collf") and op[1] >= nb: return False
+    return nb > 0 and ops[-1][0] in ("rule", "coll", "collf")
 
 def rand_op(rng, nb, rule_fn):
-    k = rng.choice(["load", "new", "new", "init", "rule", "rule", "rule", "coll", "coll"]) if nb else "new"
+    k = rng.choice(["load", "new", "new", "init", "rule", "rule", "rule", "coll", "coll", "collf"]) if nb else "new"
     if k == "load":
         return ["load", bad_rule(rng.choice(list(BAD))) if rng.random() < 0.4 else rule_fn()]
     if k == "new":
@@ -132,6 +163,7 @@ def rand_op(rng, nb, rule_fn):
     fmt = (b + 2) % 3 if rng.random() < 0.85 else rng.choice([0, 1, 2])
     if k == "init": return ["init", b, fmt]
     if k == "rule": return ["rule", b, rule_fn(), fmt]
+    if k == "collf": return ["collf", b, [rule_fn() for _ in range(rng.choice([2, 2, 3]))], rng.choice(FILTERS), fmt]
     return ["coll", b, [rule_fn() for _ in range(rng.choice([1, 2, 2, 3]))], fmt]
 
 def rand_history(rng, n, sharing):
@@ -150,7 +182,7 @@ def rand_history(rng, n, sharing):
                 if op[2] is not None: used_users.add(op[2])
             nb += 1
         ops.append(op)
-    if ops[-1][0] not in ("rule", "coll"):
+    if ops[-1][0] not in ("rule", "coll", "collf"):
         b = rng.randrange(nb)
         fmt = (b + 2) % 3 if rng.random() < 0.85 else rng.choice([0, 1, 2])
         ops[-1] = ["rule", b, rule_fn(), fmt] if rng.random() < 0.7 else ["coll", b, [rule_fn(), rule_fn()], fmt]
@@ -164,6 +196,12 @@ def gen_history(tier, rng):
     out.append(mk_case([2, 2, 0], [["new", 0, 0, False], ["new", 0, 0, False], ["init", 0, 2], ["coll", 1, [R_WIN], 2], ["rule", 0, R_LIN, 2]]))
     out.append(mk_case([1, 2, 0], [["new", 2, 0, False], ["coll", 0, [R_C], 1], ["rule", 0, R_C, 2]]))
     out.append(mk_case([1, 2, 0], [["new", 1, 0, False], ["rule", 0, R_PH, 2], ["rule", 0, R_NEG, 2]]))
+    # D27 (repaired): one filter, two rules, a mapping that would apply twice to shared detection objects
+    R_T2 = dict(R_WIN, conds=["sel"])
+    for u in (1, 4):
+        out.append(mk_case([u, 2, 0], [["new", 0, 0, False], ["collf", 0, [R_WIN, R_T2], FILTERS[0], 2]]))
+        out.append(mk_case([u, 2, 0], [["new", 1, 0, True], ["collf", 0, [R_T2, R_WIN, R_C], FILTERS[1], 0]]))
+        out.append(mk_case([u, 2, 0], [["new", 0, 0, False], ["collf", 0, [R_WIN, R_T2], FILTERS[0], 2], ["rule", 0, R_WIN, 2]]))
     # exhaustive short histories over a small alphabet (length <= 3 after the backend creations)
     small_rules = [R_WIN, R_LIN, R_PH, R_NEG, R_UNDEF]
     alpha = []
@@ -269,6 +307,7 @@ def rules_of(ops):
     for op in ops:
         if op[0] in ("load", "rule"): yield op[1] if op[0] == "load" else op[2]
         elif op[0] == "coll": yield from op[2]
+        elif op[0] == "collf": raise ValueError("model_ops first")
 
 def c_res(r):
     if r[0] == "ok": return "(Ok [])"
@@ -291,7 +330,8 @@ def c_iout(o):
 def history_to_coq(c, r):
     if "exc" in r: return None
     conds = []
-    for rule in rules_of(c["ops"]):
+    mops = model_ops(c["ops"])
+    for rule in rules_of(mops):
         for k in rule["conds"]:
             if k not in conds: conds.append(k)
     parses = clist(f"({cstr(k)}, {copt(c_tree(parse_cond(k)) if parse_cond(k) is not None else None)})" for k in conds)
@@ -300,10 +340,11 @@ def history_to_coq(c, r):
            clist(clist(c_item(d) for d in k["bk"]) for k in c["classes"]) + " " +
            clist(clist(f"({f}, {clist(c_item(d) for d in its)})" for f, its in k["fmt"].items()) for k in c["classes"]) + " " +
            users + " " + parses + ")")
-    ops = clist(c_op(o) for o in c["ops"])
+    ops = clist(c_op(o) for o in mops)
     iouts = clist(c_iout(o) for o in r["outs"])
     fresh = copt(c_iout(r["fresh"]) if r["fresh"] is not None else None)
-    return f"({env}, {ops}, {iouts}, {fresh}, {clist(str(f) for f in FMTS)})"
+    each = clist(c_iout(o) for o in r["each"])
+    return f"({env}, {ops}, {iouts}, {fresh}, {each})"
 
 # ---------------------------------------------------------------- known findings (input classes)
 def sources(c, cls, user, fmt):
@@ -322,7 +363,7 @@ def classify(c):
         bks[b]["last"] = fmt
     for op in c["ops"][:-1]:
         if op[0] == "new": bks.append({"cls": op[1], "user": op[2], "last": None})
-        elif op[0] == "init" or op[0] == "coll": init(op[1], op[2] if op[0] == "init" else op[3])
+        elif op[0] in ("init", "coll", "collf"): init(op[1], op[2] if op[0] == "init" else op[-1])
         elif op[0] == "rule" and bks[op[1]]["last"] is None: init(op[1], op[3])
     p = c["ops"][-1]
     if p[0] != "rule" or bks[p[1]]["last"] is None: return True, True
@@ -338,7 +379,7 @@ def known_history(c, r):
 
 def stratum(c, r):
     owns, fmt = classify(c)
-    return ("rule" if c["ops"][-1][0] == "rule" else "coll") + ("" if owns else "+reowned") + ("" if fmt else "+stalefmt")
+    return c["ops"][-1][0] + ("" if owns else "+reowned") + ("" if fmt else "+stalefmt")
 
 def mutate_history(c, rng):
     out = []
@@ -346,7 +387,7 @@ def mutate_history(c, rng):
     for i in range(len(ops) - 1):
         out.append(dict(c, ops=ops[:i] + ops[i + 1:]))
     for r in FIXED_RULES:
-        p = list(ops[-1]); p[2] = r if p[0] == "rule" else [r]
+        p = list(ops[-1]); p[2] = r if p[0] == "rule" else [r, r]
         out.append(dict(c, ops=ops[:-1] + [p]))
         for i in range(1, len(ops)):
             out.append(dict(c, ops=ops[:i] + [["rule", 0, r, 2]] + ops[i:]))
